@@ -141,14 +141,23 @@ def gen():
 
 
 def sh(cmd, cwd=None, env=None, timeout=3600):
+    """run a shell command in its own process group; on timeout the whole group is killed (a mutant
+    may loop forever inside a test process that would otherwise survive its parent)"""
+    import signal
     e = dict(os.environ)
     e.update({"CARGO_NET_OFFLINE": "true"})
     if env:
         e.update(env)
+    p = subprocess.Popen(cmd, shell=True, cwd=cwd, env=e, stdout=subprocess.PIPE, stderr=subprocess.STDOUT, text=True, start_new_session=True)
     try:
-        p = subprocess.run(cmd, shell=True, cwd=cwd, env=e, capture_output=True, text=True, timeout=timeout)
-        return p.returncode, p.stdout + p.stderr
+        out, _ = p.communicate(timeout=timeout)
+        return p.returncode, out
     except subprocess.TimeoutExpired:
+        try:
+            os.killpg(p.pid, signal.SIGKILL)
+        except ProcessLookupError:
+            pass
+        p.communicate()
         return 124, "timeout"
 
 
@@ -173,7 +182,7 @@ def prefilter(m, repo, target, jobs):
     rc, out = sh(f"cargo build -j{jobs} --offline --workspace --all-targets 2>&1 | tail -5", cwd=repo, env={"CARGO_TARGET_DIR": target})
     if "error" in out and "could not compile" in out:
         return "stillborn"
-    rc, out = sh(f"cargo nextest run -j{jobs} --workspace --no-fail-fast --offline 2>&1 | tail -3", cwd=repo, env={"CARGO_TARGET_DIR": target, "CARGO_BUILD_JOBS": str(jobs)}, timeout=900)
+    rc, out = sh(f"cargo nextest run -j{jobs} --workspace --no-fail-fast --offline 2>&1 | tail -3", cwd=repo, env={"CARGO_TARGET_DIR": target, "CARGO_BUILD_JOBS": str(jobs)}, timeout=300)
     if not ("85 passed" in out and "failed" not in out and "timed out" not in out):
         return "killed-by-suite"
     return "passes-suite"
